@@ -149,7 +149,7 @@ func vp_C09_frame() {
 	needed := StateNeededForAuth([]PDU{e})
 	extra := []PDU{
 		vpMkEvent(ver, "$topic:x", s.room, vpCarol, "m.room.topic", vpStrPtr(""), vpJObj("topic", "t")),
-		vpMkEvent(ver, "$md:x", s.room, "@d:x", spec.MRoomMember, vpStrPtr("@d:x"), vpJObj("membership", vpChoice("dave", spec.Join, spec.Ban))),
+		vpMkEvent(ver, "$me:x", s.room, "@e:x", spec.MRoomMember, vpStrPtr("@e:x"), vpJObj("membership", vpChoice("erin", spec.Join, spec.Ban))),
 		// a different user whose ID differs from the sender's only in letter case (user IDs are case-sensitive)
 		vpMkEvent(ver, "$mB:x", s.room, "@B:x", spec.MRoomMember, vpStrPtr("@B:x"), vpJObj("membership", vpChoice("upper_case_bob", spec.Leave, spec.Ban))),
 	}
